@@ -156,12 +156,28 @@ func (cc *canonCtx) expand(v ssa.Value, depth int) poly {
 }
 
 func checkIdentities(p *Program, r *Report) {
-	r.Rule("R16.3", "algebraic identities by normal form: the value written to each output of the partition / scaling / conversion / concentration kernels is expanded to a polynomial over the canonical symbols in<k> (input k at the loop's time index) and p<k> (parameter k); partitions sum to their input, linear maps are the stated monomial with the exact unit factor, totals equal the sum of their parts, masks write the input or zero — on every write site")
+	checkIdentityTable(p, r, "R16.3", identTable, 12, "")
+}
+
+const identDoc = "algebraic identities by normal form: the value written to each output of the partition / scaling / conversion / concentration kernels is expanded to a polynomial over the canonical symbols in<k> (input k at the loop's time index) and p<k> (parameter k); partitions sum to their input, linear maps are the stated monomial with the exact unit factor, totals equal the sum of their parts, masks write the input or zero — on every write site"
+
+// identTableC10: reported components add up to the reported total.
+var identTableC10 = map[string]identSpec{
+	"Simhyd":     {rel: []string{"out1+out2=out0"}, note: "runoff = quickflow + baseflow"},
+	"Surm":       {rel: []string{"out1+out2=out0"}, note: "runoff = quickflow + baseflow"},
+	"Sacramento": {rel: []string{"out3+out4=out1"}, note: "runoff = surface runoff + baseflow"},
+}
+
+func checkIdentityTable(p *Program, r *Report, rule string, table map[string]identSpec, floor int, doc string) {
+	if doc == "" {
+		doc = identDoc
+	}
+	r.Rule(rule, doc)
 	models, _ := p.Registry()
 	eff := nil2eff(p)
 	n := 0
 	for _, m := range models {
-		spec, ok := identTable[m.Name]
+		spec, ok := table[m.Name]
 		if !ok || m.Kernel == nil {
 			continue
 		}
@@ -236,7 +252,7 @@ func checkIdentities(p *Program, r *Report) {
 			wpos[oi] = c
 		}
 		if len(writes) == 0 {
-			r.Undecided("R16.3", key+":writes", p.Pos(k.Pos()), "no output writes at the loop's time index recognised")
+			r.Undecided(rule, key+":writes", p.Pos(k.Pos()), "no output writes at the loop's time index recognised")
 			continue
 		}
 		// per-output expectations
@@ -244,7 +260,7 @@ func checkIdentities(p *Program, r *Report) {
 			ws := writes[oi]
 			okey := fmt.Sprintf("%s:out%d", key, oi)
 			if len(ws) == 0 {
-				r.Fail("R16.3", okey, p.Pos(k.Pos()), fmt.Sprintf("output %d (%s) is never written", oi, m.Outputs[oi]))
+				r.Fail(rule, okey, p.Pos(k.Pos()), fmt.Sprintf("output %d (%s) is never written", oi, m.Outputs[oi]))
 				continue
 			}
 			bad := ""
@@ -293,9 +309,9 @@ func checkIdentities(p *Program, r *Report) {
 				bad = fmt.Sprintf("not every expected case is written (expected %s)", strings.Join(alts, " and "))
 			}
 			if bad != "" {
-				r.Fail("R16.3", okey, p.Pos(wpos[oi].Pos()), fmt.Sprintf("%s (%s): output `%s` %s", m.Name, spec.note, m.Outputs[oi], bad))
+				r.Fail(rule, okey, p.Pos(wpos[oi].Pos()), fmt.Sprintf("%s (%s): output `%s` %s", m.Name, spec.note, m.Outputs[oi], bad))
 			} else {
-				r.OK("R16.3", fmt.Sprintf("%s: %s = %s", key, m.Outputs[oi], strings.Join(alts, " | ")))
+				r.OK(rule, fmt.Sprintf("%s: %s = %s", key, m.Outputs[oi], strings.Join(alts, " | ")))
 			}
 		}
 		// relations between outputs
@@ -323,15 +339,15 @@ func checkIdentities(p *Program, r *Report) {
 			l, ok1 := eval(sides[0])
 			rr, ok2 := eval(sides[1])
 			if !ok1 || !ok2 {
-				r.Undecided("R16.3", okey, p.Pos(k.Pos()), "an output of the relation is written at several sites or not at all")
+				r.Undecided(rule, okey, p.Pos(k.Pos()), "an output of the relation is written at several sites or not at all")
 				continue
 			}
 			if polyEqual(l, rr) {
-				r.OK("R16.3", fmt.Sprintf("%s: %s holds identically (%s)", key, rel, showPoly(l)))
+				r.OK(rule, fmt.Sprintf("%s: %s holds identically (%s)", key, rel, showPoly(l)))
 			} else {
-				r.Fail("R16.3", okey, p.Pos(k.Pos()), fmt.Sprintf("%s (%s): %s does not hold identically: left side is %s, right side is %s", m.Name, spec.note, rel, showPoly(l), showPoly(rr)))
+				r.Fail(rule, okey, p.Pos(k.Pos()), fmt.Sprintf("%s (%s): %s does not hold identically: left side is %s, right side is %s", m.Name, spec.note, rel, showPoly(l), showPoly(rr)))
 			}
 		}
 	}
-	r.Floor("R16.3", "models with identities", n, 12)
+	r.Floor(rule, "models with identities", n, floor)
 }
